@@ -193,7 +193,7 @@ def decision_cases(root):
     for i, schema in enumerate(ALL_SCHEMAS):
         d = os.path.join(root, dir_name("dec%d" % i, i))
         ops = [{"op": "exists", "dir": d},
-               {"op": "create_or_load", "schema": schema, "dir": d},
+               {"op": "create_or_load", "schema": schema, "dir": d, "alias": i % 2 == 1},
                {"op": "exists", "dir": d},
                {"op": "release_all"},
                {"op": "load", "dir": d},
